@@ -311,6 +311,17 @@ def run_check(prop, tier, seed):
             audit_broken = (audit_broken + "; " if audit_broken else "") + "%s audit failed:\n%s" % (a, out_a[-1500:])
     cov["audits"] = audit_out
 
+    # 2c. extraction cross-check: a sample of cases evaluated inside Coq (vm_compute) and by the extracted OCaml model
+    if ok:
+        try:
+            with locked("coq"):
+                rc_x, out_x = sh([sys.executable, os.path.join(ROOT, "tools", "xcheck.py"), "10" if tier == "quick" else "150", str(seed)], timeout=1800)
+        except subprocess.TimeoutExpired:
+            rc_x, out_x = 1, "xcheck timed out"
+        cov["extraction_cross_check"] = out_x.strip().split("\n")[-1][:300]
+        if rc_x != 0:
+            audit_broken = (audit_broken + "; " if audit_broken else "") + "extraction cross-check failed:\n" + out_x[-1500:]
+
     # 3. harness
     rc, hout = step_harness(release=False)
     harness_ok = rc == 0
